@@ -1302,6 +1302,27 @@ func (fr *frame) shadowed(vars map[string]TV, b *ssa.BasicBlock) map[string]TV {
 	return out
 }
 
+// addCalleeLoopVars: clauses the enclosing function states about a loop of an expanded callee may also name the
+// callee's own loop variables and the locals visible at the loop head (where the enclosing function has no variable
+// of that name), and the variables of the enclosing function captured by closures.
+func (fr *frame) addCalleeLoopVars(env *specEnv, h *ssa.BasicBlock) {
+	for k, v := range fr.loopVars(h) {
+		if _, ok := env.vars[k]; !ok {
+			env.vars[k] = v
+		}
+	}
+	for k, v := range fr.localsAt(h) {
+		if _, ok := env.vars[k]; !ok {
+			env.vars[k] = v
+		}
+	}
+	for k, v := range fr.params {
+		if _, ok := env.vars[k]; !ok {
+			env.vars[k] = v
+		}
+	}
+}
+
 func instrIndex(in ssa.Instruction) int {
 	for i, x := range in.Block().Instrs {
 		if x == in {
@@ -1369,6 +1390,7 @@ func (fr *frame) enterLoop(h *ssa.BasicBlock, li *loopInfo, cur *state) {
 			_ = i
 			env := top.specEnv(es, top.old)
 			env.entry = li.entry
+			fr.addCalleeLoopVars(env, h)
 			for j, inv := range li.outer.Invariants {
 				label := inv.Label
 				if label == "" {
@@ -1478,6 +1500,7 @@ func (fr *frame) enterLoop(h *ssa.BasicBlock, li *loopInfo, cur *state) {
 		top := fr.topFrame()
 		env := top.specEnv(cur, top.old)
 		env.entry = li.entry
+		fr.addCalleeLoopVars(env, h)
 		for _, inv := range li.outer.Invariants {
 			sc.assume(implies(cur.reach, env.evalBool(inv.Expr, inv.Src)))
 		}
@@ -1579,6 +1602,7 @@ func (fr *frame) backEdge(p *ssa.BasicBlock, h *ssa.BasicBlock, es *state) {
 		top := fr.topFrame()
 		env := top.specEnv(es, top.old)
 		env.entry = li.entry
+		fr.addCalleeLoopVars(env, h)
 		for j, inv := range li.outer.Invariants {
 			label := inv.Label
 			if label == "" {
